@@ -202,4 +202,12 @@ def r3_pairing(ctx):
     r.floor("block components read", len(read), 3)
 
 
-RULES = [r1_reconstruction_map, r2_constant_fields_invariant, r3_pairing]
+def shared(ctx):
+    """from_block restores the scalar fields from the header and the trees from the header's roots: that is only faithful while header() records each field of the
+    state exactly (C07.R1 — a clamped, rounded or substituted header field is restored as the wrong value) and the stake commitment covers the whole stake set (C07.R6)."""
+    from rules.engine import core
+    from rules.props import c07
+    core.import_rules(ctx, [c07.r1_header_map, c07.r6_stake_commitment], "X07")
+
+
+RULES = [r1_reconstruction_map, r2_constant_fields_invariant, r3_pairing, shared]
